@@ -56,6 +56,9 @@ type c14Case struct {
 	Addrs  []vfIP `json:"addrs"`
 	Static int    `json:"static"`
 	Fail   bool   `json:"source_fails,omitempty"`
+	// see c13Case
+	Transient     int `json:"transient_failures,omitempty"`
+	TransientKind int `json:"transient_kind,omitempty"`
 }
 
 func c14Eligible(ip system.IP) bool {
@@ -117,9 +120,14 @@ func c14Run(c c14Case) (servers []netip.Addr, lifetime time.Duration, err error,
 	}
 	staticBefore := append([]netip.Addr(nil), p.Servers...)
 	in := vfIPs(c.Addrs)
+	ncall := 0
 	p.Addrs = func() ([]system.IP, error) {
 		if c.Fail {
 			return nil, errors.New("verif: injected address listing failure")
+		}
+		ncall++
+		if ncall <= c.Transient {
+			return nil, vfTransient[c.TransientKind]
 		}
 		return append([]system.IP(nil), in...), nil
 	}
@@ -166,6 +174,9 @@ func c14Check(c c14Case) [][2]string {
 			return [][2]string{{"C14:no-error-when-none-eligible", fmt.Sprintf("addresses %s: no eligible address but advertised %v", ev.JSON(c.Addrs), servers)}}
 		}
 		return nil
+	}
+	if err != nil && c.Transient > 0 {
+		return nil // the listing did fail during this build
 	}
 	if err != nil {
 		return [][2]string{{"C14:unexpected-error", fmt.Sprintf("addresses %s: %v", ev.JSON(c.Addrs), err)}}
@@ -294,6 +305,15 @@ func TestVerifC14(t *testing.T) {
 		})
 		return true
 	})
+	for kind := range vfTransient {
+		for n := 1; n <= 5; n++ {
+			c := c14Case{Addrs: []vfIP{c14Pool[6], c14Pool[2]}, Static: 1, Transient: n, TransientKind: kind}
+			r.Case(ev.JSON(c), true)
+			for _, v := range c14Check(c) {
+				r.Violation(v[0], v[1], c)
+			}
+		}
+	}
 	for s := range c14Static {
 		c := c14Case{Static: s, Fail: true}
 		r.Case(ev.JSON(c), true)
